@@ -425,12 +425,13 @@ class SsdpDeviceTracker:
         self, headers: CaseInsensitiveDict
     ) -> Tuple[Optional[SsdpDevice], bool]:
         """See a device through a search or advertisement."""
+        if not (usn := headers.get_lower("usn")) or not (udn := udn_from_usn(usn)):
+            # Ignore broken devices, without touching any state.
+            return None, False
+
         # Purge any old devices.
         now = headers.get_lower("_timestamp")
         self.purge_devices(now)
-        if not (usn := headers.get_lower("usn")) or not (udn := udn_from_usn(usn)):
-            # Ignore broken devices.
-            return None, False
 
         valid_to = extract_valid_to(headers)
 
